@@ -1641,7 +1641,8 @@ func sliceIterationOrder(c *core.Ctx, R string) {
 		info := u.Info()
 		g := u.Graph()
 		fn, flag := paramName(u, 0), paramName(u, 1)
-		isElems := func(e ast.Expr) bool { return fieldOf(info, e) == "Slice.elements" }
+		// s.elements, or a local that names it (`elements := s.elements`, taken under the lock)
+		isElems := func(e ast.Expr) bool { return fieldOf(info, e) == "Slice.elements" || fieldOf(info, u.Deep(e)) == "Slice.elements" }
 		rev := func(x *core.Unit, br core.Branch) int { // the atom reverse[0]
 			if br.IsCase {
 				return 0
